@@ -11,7 +11,7 @@
        nesting reaches the limit; depth stays below the limit; the scope
        chain is restored however the evaluation ends;
      - every receiver prelude yields an object or a TypeError, never a
-       foreign payload; the charAt/charCodeAt prelude is the refuted exception.
+       foreign payload (charAt/charCodeAt included since their repair).
    The remaining claim - no reachable built-in raises a foreign payload - is a
    finite product that the correspondence run enumerates on the interpreter
    built from /repo (C02/Corr.v), over the inventory that
@@ -104,17 +104,12 @@ Proof.
 Qed.
 Print Assumptions C02_receiver_prelude.
 
-(* finding C02-charat-receiver: the prelude of charAt/charCodeAt dereferences nil
-   for exactly the coercible receivers that are not String objects *)
-Theorem C02_charAt_prelude_refuted :
-  exists k, public_kind k = true /\ charAt_prelude_spec k = POk /\ charAt_prelude k = PRaise (Raw BRuntimeStr).
-Proof. exact charAt_prelude_refuted. Qed.
-Print Assumptions C02_charAt_prelude_refuted.
-
-Theorem C02_charAt_crashes_iff : forall k, public_kind k = true ->
-  (charAt_prelude k = PRaise (Raw BRuntimeStr) <-> k <> KUndefined /\ k <> KNull /\ k <> KObject cString).
-Proof. exact charAt_prelude_crashes_iff. Qed.
-Print Assumptions C02_charAt_crashes_iff.
+(* charAt/charCodeAt (repaired by 8a02cb3, finding C02-charat-receiver): their prelude is the ES5 one
+   - CheckObjectCoercible, then ToString - and like the others never raises a foreign payload *)
+Theorem C02_charAt_prelude_is_spec : forall k, public_kind k = true ->
+  charAt_prelude k = charAt_prelude_spec k /\ prelude_js (charAt_prelude k) = true.
+Proof. exact charAt_prelude_total. Qed.
+Print Assumptions C02_charAt_prelude_is_spec.
 
 (* translator tie: every function reachable in the interpreter built from /repo
    (Inventory.v, regenerated on every run) has a row in the discipline table *)
